@@ -264,7 +264,11 @@ impl<'e> Runner<'e> {
         let kind = &env.menu[ki];
         let cat = kind.category();
         let rate = cfg.rrl.rate_of(cat);
-        let baseline = env.baseline[ki].as_deref();
+        // Where the menu has a second spelling of the same stream (the QNAME
+        // in another letter case), every other request of the stream under
+        // test uses it: the stream, not the spelling, owns the bucket.
+        let alt = env.menu.iter().position(|k| k.name.strip_suffix("-upper") == Some(cfg.kind.as_str()));
+        let mut req_no = 0usize;
         let mut now = Duration::ZERO;
         sut::set_rrl_clock(now);
         sut::reset_rrl(server, &cfg.rrl);
@@ -301,6 +305,13 @@ impl<'e> Runner<'e> {
                     (Some(_), Some(_)) => flags.evicted = true,
                     _ => {}
                 }
+                let use_ki = match alt {
+                    Some(a) if stream == 0 && req_no % 2 == 1 => a,
+                    _ => ki,
+                };
+                req_no += 1;
+                let kind = &env.menu[use_ki];
+                let baseline = env.baseline[use_ki].as_deref();
                 let got = sut::call(server, &kind.msg, src, kind.tp, &mut self.buf);
                 let observed = sut::classify(&kind.msg, baseline, got.map(|n| n.map(|n| &self.buf[..n])));
                 stats.requests += 1;
